@@ -13,6 +13,18 @@ def main(tier, only=None):
         "are identical afterwards. What onnx_ir.save does at each file-system call is outside the claim (installed "
         "package, I/O)."
     )
-    run.assumptions += ["ir.save stubbed (recording, faulting under a symbolic flag)", "<=3 initializers; 8 path shapes"]
-    xh.run_obligations(run, ["vp.harness.c20"], tier, only)
+    run.coverage["explanation"] += (
+        " Second group (c20.real.*): the same function over the REAL onnx_ir.save writing into a scratch directory; "
+        "the kind of each initializer (in-memory small/large/zero-size/scalar/uint8, already-external in another file, "
+        "already-external in the destination data file) and the index k of the write-side file-system operation "
+        "(open-for-write, write, flush, close of the data and model files) that raises OSError are solver variables that the harness concretises by comparison forks (one solver-decided path per instance; CrossHair reports the partition exhaustive), after which the real code, protobuf, NumPy and the file system run concretely on that instance; "
+        "postcondition: same Value and tensor objects, same external references, same bytes readable, same serialized "
+        "structure afterwards, and on success ir.load(path) gives equal names/dtypes/shapes/bytes/nodes with every "
+        "externalised tensor in the sibling <name>.data."
+    )
+    run.assumptions += ["c20.save.*: ir.save stubbed (recording, faulting under a symbolic flag); <=3 initializers; 8 path shapes",
+                        "c20.real.*: open() as seen by onnx_ir.external_data and onnx is a counting proxy over the real file; "
+                        "faults are OSError at one operation; rename/fsync are not used by the installed onnx_ir and so not fault points; "
+                        "<=2 initializers quick, <=3 thorough"]
+    xh.run_obligations(run, ["vp.harness.c20", "vp.harness.c20_real"], tier, only)
     return run.finish()
